@@ -2,9 +2,9 @@
    of every script body that passes the source check (itself a theorem for every accepted program) and both chunk orders,
    the order is a duplicate-free enumeration of the chunks starting a chain at chunk 0, every target is rendered, no branch
    refers to chunk 0, every chunk holds simple statements only, and the last chunk of the order never falls off the end.
-   What remains of wf_render are the three conditions on names the author chose (names_okb): an AutoVar command is not called
-   end / return / goto, a goto names one of the script's labels or something that is not a label of the emitted script,
-   and labels are pairwise distinct. *)
+   What remains of wf_render are conditions on names the author chose: names_okb (an AutoVar command is not called
+   end / return / goto; a goto names one of the script's labels or something that is not a label of the emitted script)
+   and labels pairwise distinct. *)
 From Coq Require Import List String Ascii ZArith NArith Lia Bool Permutation.
 From Pory Require Import Lexer Ast Emitter Sem2 SemTgt Tr EmitProps RenderSim RenderCheck LabelSim C01Final Worklist WorkRefs WorkLabels WorkShape OrderPerm.
 Import ListNotations.
@@ -61,9 +61,8 @@ Qed.
 End R.
 
 (* the part of the check that speaks about names the author chose *)
-Definition sw_nonempty (c : chunk) : bool := match cbr c with Some (BrSwitch _ _ [] None _) => false | _ => true end.
 Definition names_okb (G : list chunk) (code : list instr) : bool :=
-  forallb pre_okb G && forallb (goto_okb G code) G && forallb sw_nonempty G.
+  forallb pre_okb G && forallb (goto_okb G code) G.
 
 Lemma zmem_perm x l l' : Permutation l l' -> zmem x l = zmem x l'.
 Proof.
@@ -96,13 +95,13 @@ Theorem wf_render_from_source mp name optimize body w code :
   wf_render mp name (finals w) (order_of optimize (finals w)) code = true.
 Proof.
   intros HW HS NDL NM. set (G := finals w). set (order := order_of optimize G).
-  destruct (final_graph_shape body w HW HS) as (DN & NE & ST & TG & TB). fold G in DN, NE, ST, TG, TB.
+  destruct (final_graph_shape body w HW HS) as (DN & NE & ST & TG & TB & N3). fold G in DN, NE, ST, TG, TB, N3.
   assert (DN' : OrderPerm.dense G) by exact DN.
   destruct (order_conjuncts optimize G DN' NE) as (O1 & O2 & O3 & O4). fold order in O1, O2, O3, O4.
   pose proof (order_of_perm optimize G DN' NE) as PERM. fold order in PERM.
   assert (INORD : forall d, In d (ids G) -> zmem d order = true).
   { intros d Hd. apply zmem_in. eapply Permutation_in; [symmetry; exact PERM|exact Hd]. }
-  unfold names_okb in NM. apply andb_prop in NM. destruct NM as [NM N3]. apply andb_prop in NM. destruct NM as [N1 N2].
+  unfold names_okb in NM. apply andb_prop in NM. destruct NM as [N1 N2].
   pose proof (finals_simple body w HW HS) as SIMPLE. fold G in SIMPLE.
   unfold wf_render. fold G order.
   repeat (apply andb_true_intro; split); try assumption.
@@ -137,7 +136,7 @@ Proof.
     + destruct (ST c Hc (-1)%Z) as [Q _]; [unfold stargets; rewrite B; left; reflexivity|lia].
     + destruct (ST c Hc (-1)%Z) as [Q _]; [unfold stargets; rewrite B; apply in_or_app; right; left; reflexivity|lia].
     + destruct cases as [|x0 xs].
-      * rewrite forallb_forall in N3. specialize (N3 c Hc). unfold sw_nonempty in N3. rewrite B in N3. discriminate.
+      * rewrite Forall_forall in N3. specialize (N3 c Hc). unfold nonempty_switch in N3. rewrite B in N3. exact N3.
       * assert (TS : is_table c) by (unfold is_table; rewrite B; exact Logic.I).
         destruct (TB c Hc TS) as (Z0 & NXT & NOTAIL). rewrite CID in *.
         assert (INO : In (d + 1)%Z order) by (eapply Permutation_in; [symmetry; exact PERM|exact NXT]).
